@@ -282,7 +282,7 @@ variant("c14_cache_committed_nodes", ["C14"], {"C14": ["C14.R1"]},
             self.unflushed.insert(node.index, node);
         }
 """)])
-variant("c01_replay_skips_bitfield", ["C01", "C08"], {"C01": ["C01.R2"]},
+variant("c01_replay_skips_bitfield", ["C01", "C08"], {"C01": ["C01.R2"], "C08": ["C08.R3"]},
         "replay on open no longer applies bitfield updates",
         [(CORE, """                if let Some(bitfield_update) = &entry.bitfield {
                     bitfield.update(bitfield_update);
